@@ -1,11 +1,11 @@
 SPECIFICATION Spec
 CONSTANTS
-  Backends = {"responsive", "closed"}
+  Backends = {"responsive", "silent", "closed"}
   MayClose = TRUE
   WithSession = TRUE
   WithRefresh = TRUE
-  FixSessionWait = FALSE
-  FixRefreshWait = FALSE
+  FixSessionWait = TRUE
+  FixRefreshWait = TRUE
   FixProcQuit = FALSE
   NReq = 3
   SessQCap = 1
